@@ -116,6 +116,7 @@ class Observer:
             s.requests[(from_init, h['msgid'])] = (m, d)
             if h['exchange'] == 35:
                 self.check_auth(s, m, d, True)
+                self.candidate_child_secrets(s, m)
         else:
             req = s.requests.get((not from_init, h['msgid']))
             if req is None:
@@ -127,6 +128,20 @@ class Observer:
             if h['exchange'] == 35:
                 self.check_auth(s, m, d, False)
             self.see_exchange(s, req[0], m, req[1], d, h['exchange'])
+
+    def candidate_child_secrets(self, s, m):
+        """the CHILD_SA keys the responder of IKE_AUTH derives before it answers (it may fail, and say why, before any
+        response exists): one candidate per (integrity, cipher key length) the request offers.  Only used as search terms."""
+        try:
+            for prop in W.find(m['inner'], 'SA')[0]['proposals']:
+                encrs = [t.get('keylen') or 0 for t in _tr(prop, 1)] or [0]
+                for it in _tr(prop, 3):
+                    for bits in encrs:
+                        for n, v in K.child_keys(s.prf, s.keys['sk_d'], s.ni, s.nr, it['id'], bits, b'').items():
+                            if v:
+                                self.secrets.append(('child_' + n, v))
+        except Exception:
+            pass
 
     def see_init_response(self, m, raw, d):
         sa = W.find(m['payloads'], 'SA')
